@@ -171,6 +171,14 @@ def late_rebind_history(kind):
             A(a='SetCache', v='v1', c='c1'), A(a='Hash', v='v1', **{'in': 'I1'}, key='K1'), A(a='Hash', v='v1', **{'in': 'I2'}, key='K1')]
 
 
+def same_struct_new_memory_history(kind):
+    """a light VM outlives its cache; the next cache gets the same struct address but another memory block, the same key; set_cache; hashes"""
+    A = lambda **k: k
+    return [A(a='AllocCache', c='c1', s='s1', m='m1'), A(a='InitCache', c='c1', k='K1', skip=False), A(a='CreateVm', v='v1', kind=kind, c='c1', d='none', v2=False),
+            A(a='Hash', v='v1', **{'in': 'I1'}, key='K1'), A(a='ReleaseCache', c='c1'), A(a='AllocCache', c='c1', s='s1', m='m2'), A(a='InitCache', c='c1', k='K1', skip=False),
+            A(a='SetCache', v='v1', c='c1'), A(a='Hash', v='v1', **{'in': 'I1'}, key='K1'), A(a='Hash', v='v1', **{'in': 'I2'}, key='K1')]
+
+
 def exe():
     return vlib.build_harness('rx_api', extra=['-fno-access-control'])
 
